@@ -391,11 +391,11 @@ Proof.
     + now rewrite (Hoth eq_refl Hx).
 Qed.
 
-Theorem two_new_are_separated w t0 roles sched a t1 m1 k n1 b t2 m2 n2 c :
-  rev (trace (run w (init t0 roles) sched)) = a ++ EIns t1 m1 k n1 :: b ++ EIns t2 m2 k n2 :: c ->
+Lemma accepted_two_new w t0 a t1 m1 k n1 b t2 m2 n2 c :
+  mon_ok w t0 (a ++ EIns t1 m1 k n1 :: b ++ EIns t2 m2 k n2 :: c) = true ->
   existsb (removes k) b = true /\ n1 + w < n2.
 Proof.
-  intros E. pose proof (trace_accepted w t0 roles sched) as H. rewrite E in H.
+  intros H.
   replace (a ++ EIns t1 m1 k n1 :: b ++ EIns t2 m2 k n2 :: c)
     with ((a ++ EIns t1 m1 k n1 :: b ++ [EIns t2 m2 k n2]) ++ c) in H
     by (rewrite <- !app_assoc; simpl; rewrite <- !app_assoc; reflexivity).
@@ -423,6 +423,14 @@ Proof.
     assert (Hd : is_dup (EIns t2 m2 k n2) = true).
     { eapply accepted_retained; [exact H| |exact Hle]. unfold calls_key; simpl; apply N.eqb_refl. }
     discriminate.
+Qed.
+
+Theorem two_new_are_separated w t0 roles sched a t1 m1 k n1 b t2 m2 n2 c :
+  rev (trace (run w (init t0 roles) sched)) = a ++ EIns t1 m1 k n1 :: b ++ EIns t2 m2 k n2 :: c ->
+  existsb (removes k) b = true /\ n1 + w < n2.
+Proof.
+  intros E. pose proof (trace_accepted w t0 roles sched) as H. rewrite E in H.
+  eapply accepted_two_new; eauto.
 Qed.
 
 (** the answers a thread recorded are exactly its linearisation events *)
